@@ -26,7 +26,8 @@ class Instance:
     def eager_restr(self):
         parts = self.restr.split(",")
         first = [p.split("..")[0] for p in parts]
-        assert len(set(first)) == 1, "instances use one test set"
+        if len(set(first)) != 1:
+            return "only %s\n" % self.restr      # tests of several test sets: one restriction line
         return "only %s\nonly %s\n" % (first[0], ",".join(p.split("..", 1)[1] for p in parts))
 
     def prepare(self):
